@@ -48,13 +48,26 @@ static void dump(long seq, int step, int op, long ret, jwk_set_t *s, const char 
 {
 	size_t n = jwks_item_count(s);
 	char lastbad[32];
-	printf("[\"P\",%ld,%d,%d,%ld,%zu,%d,%d,%d,[", seq, step, op, ret, n, jwks_error_any(s), jwks_error(s), jwks_error_msg(s)[0] != 0);
-	for (size_t i = 0; i < n; i++) {
-		const jwk_item_t *it = jwks_item_get(s, i);
-		int kc; long uid = item_uid(it, &kc);
-		printf("%s[%ld,%d,%d]", i ? "," : "", uid, kc, jwks_item_error(it));
+	static long uid[4096]; static int kc[4096], er[4096];
+	int past_end_nonnull = 0;
+	/* observation order varies (ascending / past-the-end first then descending / middle-out) so that a stale
+	 * position cache inside the keyring cannot be healed by always scanning from index 0 first */
+	int mode = (int)((seq + step) % 3);
+	if (n > 4096) vh_harness_fail("keyring too long");
+	if (mode == 1) past_end_nonnull = jwks_item_get(s, n) != NULL;
+	for (size_t q = 0; q < n; q++) {
+		size_t i = mode == 0 ? q : mode == 1 ? n - 1 - q : (q % 2 ? n / 2 - (q + 1) / 2 : n / 2 + q / 2);
+		const jwk_item_t *it;
+		if (i >= n) i = q;	/* middle-out overshoot for tiny n */
+		it = jwks_item_get(s, i);
+		if (!it) { uid[i] = -7; kc[i] = -7; er[i] = -7; continue; }
+		uid[i] = item_uid(it, &kc[i]); er[i] = jwks_item_error(it);
 	}
-	if (jwks_item_get(s, n) != NULL) printf("%s[-9,-9,-9]", n ? "," : "");	/* get past the end must be NULL */
+	if (mode != 1) past_end_nonnull = jwks_item_get(s, n) != NULL;
+	if (jwks_item_get(s, n + 3) != NULL) past_end_nonnull = 1;
+	printf("[\"P\",%ld,%d,%d,%ld,%zu,%d,%d,%d,[", seq, step, op, ret, n, jwks_error_any(s), jwks_error(s), jwks_error_msg(s)[0] != 0);
+	for (size_t i = 0; i < n; i++) printf("%s[%ld,%d,%d]", i ? "," : "", uid[i], kc[i], er[i]);
+	if (past_end_nonnull) printf("%s[-9,-9,-9]", n ? "," : "");	/* get past the end must be NULL */
 	snprintf(lastbad, sizeof(lastbad), "bad-%ld", last_bad_uid);
 	printf("],[%ld,%ld,%ld,%ld,%ld,%ld],", find_uid(s, "a"), find_uid(s, "b"), find_uid(s, "c"), find_uid(s, "ab"), find_uid(s, ""), find_uid(s, lastbad));
 	vh_put_jstr(stdout, loaded);
